@@ -174,6 +174,7 @@ func checkC12(c *Check) {
 	}
 	c.notificationReachesManager("C12.3 notification-reaches-manager")
 	c.readerHandoffRule("C12.3 received-notification-not-overtaken")
+	c.cleanupContract("C12.5 damping-drops-connections")
 	c.backoffArithmetic("C12.4 backoff")
 	c.holdDownSemantics("C12.5 hold-down")
 	c.inboundAdmission("C12.5 hold-down")
